@@ -2,13 +2,13 @@
    Proofs/C04*.v; Print Assumptions beneath each.
    TODO (unproved), compared on every generated case instead (see harness/c04/NOTES.md):
      generator_resumable    : wf -> obs (commit acts) = spec_exec acts   (re-entrant)
-     a run-level (rather than generator-step-level) statement of declaration order within a phase and of
-     deferred_when_reached for re-entrant runs (the run-level form of the late-addition clause IS proved:
-     C04_late_addition_refused / C04_late_refusal_names_last_phase) *)
+     a run-level (rather than generator-step-level) statement of deferred_when_reached for re-entrant runs
+     (the run-level forms of the late-addition clause and of declaration order within a phase ARE proved:
+     C04_late_addition_refused / C04_late_refusal_names_last_phase / C04_run_first_pending) *)
 From Coq Require Import List NArith ZArith Bool Sorted.
 Import ListNotations.
-Require Import Verif.Lib.Wire Verif.Lib.C04Sort Verif.Gen.Facts_C04 Verif.Model.C04 Verif.Model.C04_entry Verif.Gen.Exec_C04.
-Require Import Verif.Proofs.C04 Verif.Proofs.C04_flat Verif.Proofs.C04_decide Verif.Proofs.C04_safe Verif.Proofs.C04_groups Verif.Proofs.C04_spec Verif.Proofs.C04_mono Verif.Proofs.C04_one Verif.Proofs.C04_defer Verif.Proofs.C04_step Verif.Proofs.C04_all Verif.Proofs.C04_order Verif.Proofs.C04_gen Verif.Proofs.C04_late Verif.Proofs.C04_entry.
+Require Import Verif.Lib.Wire Verif.Lib.C04Sort Verif.Gen.Facts_C04 Verif.Model.C04 Verif.Model.C04_entry Verif.Model.C04_err Verif.Gen.Exec_C04.
+Require Import Verif.Proofs.C04 Verif.Proofs.C04_flat Verif.Proofs.C04_decide Verif.Proofs.C04_safe Verif.Proofs.C04_groups Verif.Proofs.C04_spec Verif.Proofs.C04_mono Verif.Proofs.C04_one Verif.Proofs.C04_defer Verif.Proofs.C04_step Verif.Proofs.C04_all Verif.Proofs.C04_order Verif.Proofs.C04_gen Verif.Proofs.C04_late Verif.Proofs.C04_entry Verif.Proofs.C04_pos Verif.Proofs.C04_err.
 
 (* ---- the control flow of ActionState.execute_actions and of ActionConfiguratorMixin.action is REGENERATED from the
    source on every run (harness/c04/translate.py -> Gen/Exec_C04.v); it equals the hand-written model *)
@@ -351,6 +351,71 @@ Theorem C04_late_refusal_names_last_phase : forall acts o m,
   (o < m)%Z /\ exists tr0 a, commit_trace cfg_current acts = tr0 ++ [a] /\ ordkey a = m.
 Proof. exact (fun acts o m => late_refusal_names_last_phase cfg_current acts o m). Qed.
 Print Assumptions C04_late_refusal_names_last_phase.
+
+(* WITHIN A PHASE, IN DECLARATION ORDER -- RUN LEVEL, re-entrant runs included.  [exec_s] lists the steps of the very
+   run [commit]: (pool, a, rest) = remaining_actions when the generator is asked for the next action (what the previous
+   step left pending followed by what the executed action declared: [chained]), the action handed out, and
+   remaining_actions afterwards.  At every step the action handed out is the FIRST pending action of the SMALLEST
+   pending phase ([first_pending]): what stays pending is a subsequence of the pool, belongs to the same or a later
+   phase, and -- when of the same phase -- stood behind the action in the pool, i.e. was declared later. *)
+Theorem C04_run_first_pending : forall acts,
+  wf_ids acts = true -> wf_orders acts = true ->
+  let steps := exec_s cfg_fixed (S (forest_size acts)) cstate0 gen0 acts in
+  map step_action steps = commit_trace cfg_fixed acts /\
+  chained acts steps /\
+  Forall (fun s => first_pending (fst (fst s)) (snd (fst s)) (snd s)) steps.
+Proof. exact run_first_pending. Qed.
+Print Assumptions C04_run_first_pending.
+
+(* what [first_pending] says, spelled out *)
+Theorem C04_first_pending_meaning : forall pool a rest,
+  first_pending pool a rest <->
+  (subseq (map ak rest) (map ak pool) /\ In (ak a) (map ak pool) /\ ~ In (aid a) (map aid rest) /\
+   forall b, In b rest -> (ordkey a <= ordkey b)%Z /\
+                          (ordkey b = ordkey a -> before (aid a) (aid b) (map aid pool))).
+Proof. exact (fun pool a rest => conj (fun H => H) (fun H => H)). Qed.
+Print Assumptions C04_first_pending_meaning.
+
+(* ... one generator step, for any reachable state: Q = every remaining action is pending in the generator and
+   conversely (Proofs/C04_all.v), GI = the suspended-generator invariant, RK = indices follow positions *)
+Theorem C04_gen_next_first_pending : forall st g a st2 g2 e,
+  Q (remaining st) (gitems g) -> GI st g -> StronglySorted idx_le (g_out g) -> RK (remaining st) (gitems g) ->
+  gen_next cfg_fixed st g = SYield a st2 g2 e ->
+  RK (remaining st2) (gitems g2) /\ first_pending (remaining st) a (remaining st2).
+Proof. exact gen_next_first. Qed.
+Print Assumptions C04_gen_next_first_pending.
+
+Example C04_run_first_pending_nonvacuous :
+  wf_ids w_pos = true /\ wf_orders w_pos = true /\
+  map aid (commit_trace cfg_fixed w_pos) = [0; 2; 3; 1]%N /\
+  map (fun s => (map aid (fst (fst s)), map aid (snd s))) (exec_s cfg_fixed (S (forest_size w_pos)) cstate0 gen0 w_pos)
+  = [([0; 1; 2], [1; 2]); ([1; 2; 3], [1; 3]); ([1; 3], [1]); ([1], [])]%N.
+Proof. exact run_first_pending_witness. Qed.
+
+(* THE ERROR PATH: a callable raises (ConfigurationExecutionError).  [commit_x cfg bad] is execute_actions when the
+   callables of the actions selected by [bad] raise.  It is the plain run cut right after the first raising callable
+   started: the same actions ran before it, in the same order, with the same Deferred forcings; nothing runs afterwards;
+   if no executed callable raises it is the plain run. *)
+Theorem C04_raising_callable_cuts_the_run : forall cfg bad acts,
+  match fst (commit_x cfg bad acts) with
+  | Raised a => bad a = true /\ exists pre suf, snd (commit_x cfg bad acts) = pre ++ [Run a] /\
+                  snd (commit_with cfg acts) = snd (commit_x cfg bad acts) ++ suf /\
+                  forall i, In (Run i) pre -> bad i = false
+  | Normal o => o = fst (commit_with cfg acts) /\ snd (commit_x cfg bad acts) = snd (commit_with cfg acts) /\
+                forall i, In (Run i) (snd (commit_with cfg acts)) -> bad i = false
+  end.
+Proof. exact commit_x_prefix. Qed.
+Print Assumptions C04_raising_callable_cuts_the_run.
+
+Theorem C04_no_raising_callable_is_commit : forall cfg acts,
+  commit_x cfg (fun _ => false) acts = (Normal (fst (commit_with cfg acts)), snd (commit_with cfg acts)).
+Proof. exact commit_x_none. Qed.
+Print Assumptions C04_no_raising_callable_is_commit.
+
+Example C04_raising_callable_nonvacuous :
+  commit_x cfg_fixed (N.eqb 1) w_raise = (Raised 1, [Run 0; Run 1]%N) /\
+  snd (commit_with cfg_fixed w_raise) = [Run 0; Run 1; Run 2; Run 3]%N.
+Proof. exact raise_witness. Qed.
 
 (* the unrepaired code (both parameters off) contradicts the specification: DESIGN.md section 5 item 3 *)
 Theorem C04_commit_spec_refuted_crossphase :
